@@ -11,7 +11,7 @@ from pvc.core import Sym
 
 MODULES = ['dassh.hotspot']
 PROPERTY = 'C19'
-FUNCTIONS = ['dassh.hotspot:calculate_temps', 'dassh.hotspot:_get_peak_dt', 'dassh.hotspot:_split_clad_subfactors',
+FUNCTIONS = ['dassh.hotspot:analyze', 'dassh.hotspot:calculate_temps', 'dassh.hotspot:_get_peak_dt', 'dassh.hotspot:_split_clad_subfactors',
              'dassh.hotspot:_evaluate_hcf_expr']
 ASSUMPTIONS = ['precondition of calculate_temps: IN_sigma > 0 (the input template admits 0: a call-site obligation, see C18)',
                'sizes: 1-2 assemblies, 1-3 direct and 1-2 statistical subfactors, 1-5 temperature terms (the function is '
@@ -151,12 +151,93 @@ def expand(S, cfg):
 expand.cname = 'hotspot._evaluate_hcf_expr'
 
 
+def analyze(S, cfg):
+    """hotspot.analyze: every row of the result belongs to the assembly whose id stands next to it.
+    Callees (their own contracts above) are stubbed by recorders: _get_peak_dt returns one recognisable row of
+    rises per assembly of the type, calculate_temps returns T_in + OUT_sigma * dT + IN_sigma (row-wise), so that a
+    row of the result identifies its assembly, its region and the options it was computed with."""
+    from dassh import hotspot
+    from .common import patched
+    T_in = S.pos('T_in', 500.0, 700.0)
+    names = cfg['names']                       # assembly type per core position, ids = positions
+    types = sorted(set(names), key=names.index)
+    if cfg.get('reverse_types'):
+        types = types[::-1]
+    regs = cfg.get('regions', ['coolant', 'clad_mw', 'fuel_cl'])
+    r = _R()
+    r.inlet_temp = T_in
+    r.assemblies = []
+    for i, nm in enumerate(names):
+        a = _Asm(nm, None)
+        a.id = i
+        r.assemblies.append(a)
+    if cfg.get('shuffled'):
+        r.assemblies = r.assemblies[1::2] + r.assemblies[0::2]
+    sig = {}
+    r._options = {'hotspot': {}}
+    for t in types:
+        r._options['hotspot'][t] = {}
+        for k in regs:
+            if cfg.get('partial') and t == types[-1] and k == regs[-1]:
+                continue
+            sig[(t, k)] = (S.pos(f'in_sigma[{t},{k}]', 1.0, 4.0), S.nonneg(f'out_sigma[{t},{k}]', 0.0, 4.0))
+            r._options['hotspot'][t][k] = {'subfactors': f'table:{t}:{k}', 'input_sigma': sig[(t, k)][0],
+                                           'output_sigma': sig[(t, k)][1]}
+    nterm = {'coolant': 1, 'clad_od': 2, 'clad_mw': 3, 'clad_id': 4, 'fuel_od': 5, 'fuel_cl': 6}
+    rises = {}
+    for a in r.assemblies:
+        for k in regs:
+            rises[(a.id, k)] = list(S.vec(f'dT[{a.id},{k}]', nterm[k], 'nonneg', 0.0, 200.0))
+
+    def get_dt(r_obj, asm_name, k):
+        rows = [rises[(a.id, k)] for a in r_obj.assemblies if a.name == asm_name]
+        out = np.empty((len(rows), nterm[k]), dtype=object if S.mode == 'sym' else float)
+        for i, row in enumerate(rows):
+            for j, v in enumerate(row):
+                out[i, j] = v
+        return out
+
+    def calc(T0, dT, subf, IN_sigma=3, OUT_sigma=2):
+        return T0 + OUT_sigma * dT + IN_sigma
+
+    def evaluate(subf, expr, dT):
+        n = dT.shape[0]
+        return {'direct': np.ones((n, 1, 8)), 'statistical': np.ones((n, 1, 8))}
+    with patched((hotspot, '_get_peak_dt', get_dt), (hotspot, 'calculate_temps', calc),
+                 (hotspot, '_read_hcf_table', lambda path, ncol: ({'path': path}, {})),
+                 (hotspot, '_split_clad_subfactors', lambda subf, expr: (subf, expr)),
+                 (hotspot, '_evaluate_hcf_expr', evaluate)):
+        res = hotspot.analyze(r)
+    S.holds('analyze.returns_tables', res is not None)
+    temps_, ids = res
+    for k in regs:
+        want = [a.id for a in sorted(r.assemblies, key=lambda a: a.id)
+                if a.name in r._options['hotspot'] and k in r._options['hotspot'][a.name]]
+        S.holds(f'analyze.ids_sorted_and_complete[{k}]', list(ids.get(k, [])) == want)
+        if not want:
+            S.holds(f'analyze.no_table_without_input[{k}]', k not in temps_)
+            continue
+        S.holds(f'analyze.row_count[{k}]', temps_[k].shape == (len(want), nterm[k]))
+        for i, aid in enumerate(want):
+            t = names[aid]
+            for j in range(nterm[k]):
+                S.eq(f'analyze.row_belongs_to_its_id[{k},{i},{j}]', temps_[k][i, j],
+                     T_in + sig[(t, k)][1] * rises[(aid, k)][j] + sig[(t, k)][0])
+    k0 = regs[0]
+    S.eq('canary.analyze_rows_equal', temps_[k0][1, 0], temps_[k0][0, 0], canary=True)
+analyze.cname = 'hotspot.analyze'
+
+
 def configs(tier):
     out = [(temps, dict(n_asm=1, n_dir=1, n_stat=1, n_term=1)),
            (temps, dict(n_asm=1, n_dir=2, n_stat=2, n_term=3)),
            (temps, dict(n_asm=2, n_dir=3, n_stat=1, n_term=2)),
            (peak_dt, dict(value='coolant')), (peak_dt, dict(value='clad_mw')), (peak_dt, dict(value='fuel_cl')),
-           (split_clad, dict(n_sf=2, n_col=5)), (expand, dict())]
+           (split_clad, dict(n_sf=2, n_col=5)), (expand, dict()),
+           (analyze, dict(names=['fuel', 'blanket', 'fuel', 'blanket', 'fuel'])),
+           (analyze, dict(names=['fuel', 'blanket', 'fuel', 'fuel', 'blanket', 'refl', 'fuel'], partial=True,
+                          reverse_types=True)),
+           (analyze, dict(names=['a', 'b', 'c', 'a', 'b', 'c', 'a'], shuffled=True, regions=['clad_od', 'fuel_od']))]
     if tier == 'thorough':
         out += [(temps, dict(n_asm=2, n_dir=3, n_stat=2, n_term=5)), (peak_dt, dict(value='clad_id')),
                 (peak_dt, dict(value='fuel_od')), (peak_dt, dict(value='clad_od'))]
